@@ -70,6 +70,24 @@ pub fn vacuum_in_place(
     })
 }
 
+/// verif hook: the page set vacuum would keep (its mark phase), without rewriting anything.
+#[cfg(nervusdb_verif)]
+pub fn verif_reachable_pages(
+    ndb_path: impl AsRef<Path>,
+    wal_path: impl AsRef<Path>,
+) -> Result<Vec<u64>> {
+    let wal_path = wal_path.as_ref();
+    let committed = if wal_path.exists() {
+        crate::wal::Wal::replay_committed_from_path(wal_path)?
+    } else {
+        Vec::new()
+    };
+    let roots = scan_wal_roots(&committed);
+    let pager = Pager::open(ndb_path.as_ref())?;
+    let reachable = mark_reachable_pages(&pager, &roots)?;
+    Ok(reachable.into_iter().map(|p| p.as_u64()).collect())
+}
+
 #[derive(Debug, Default)]
 struct WalRoots {
     manifest_epoch: u64,
